@@ -18,7 +18,7 @@ PRODUCERS = [q for q, (_, role) in O.QUERIES.items() if role == "P"]
 CONSUMERS = [q for q, (_, role) in O.QUERIES.items() if role in ("C", "X")]
 EXPORTS = [q for q, (_, role) in O.QUERIES.items() if role == "X"]
 ISOLATED_SHARE = 0.25
-FORK_OPS = ["deepcopy", "pickle", "reload"]
+FORK_OPS = ["deepcopy", "deepcopy", "pickle", "pickle", "reload", "reload", "derive_P1", "derive_cif", "derive_res"]
 RADII = [1.5, 3.0, 3.8, 6.0, 9.0]
 BOUNDS = [
     [[-1, -1, -1], [1, 1, 1]],
@@ -63,8 +63,8 @@ def gen_config(rng, spec):
     k = rng.randint(3, len(FAST_QUERIES))
     enabled = rng.sample(FAST_QUERIES, k)
     slow = []
-    if not large and rng.random() < 0.08:
-        slow = [rng.choice(sorted(O.SLOW_QUERIES))]
+    if not large and rng.random() < 0.2:
+        slow = rng.sample(sorted(O.SLOW_QUERIES), rng.randint(1, 2))
     fault_kinds = [f for f in ("raiser", "wfail", "inject") if rng.random() < 0.5]
     return {
         "length": length,
